@@ -353,10 +353,7 @@ Proof.
   destruct e as [|c|c|c name flags|c name|c]; try reflexivity.
   unfold exception_trigger, spec_step. destruct (sfind (s_conns s) c) as [x|]; [|reflexivity].
   destruct (sc_active x); [|reflexivity]. cbn [negb andb]. destruct (requestable name); [|reflexivity]. cbn [negb andb].
-  intros H. apply orb_false_iff in H. destruct H as [H1 H2]. cbn [v_limit_always literal as_implemented orb].
-  rewrite (request_queue_variants _ c flags H1).
-  destruct (s_limit s <=? held (s_names s) c) eqn:El; cbn [andb] in *; [|reflexivity].
-  rewrite H2. reflexivity.
+  intros H1. rewrite (request_queue_variants _ c flags H1). reflexivity.
 Qed.
 
 Theorem outside_exceptions v h : forall s adv i, v = as_implemented -> quiet v s h adv i ->
@@ -445,4 +442,29 @@ Theorem no_fault_reachable limit h e :
   forall o, In o (snd (step (fst (run (init_bus limit) h)) e)) -> snd o <> MFault.
 Proof.
   intros Hc. destruct (reachable_R limit h) as [s Rr]. eapply no_fault; eauto. apply reachable_inv.
+Qed.
+
+(* ---- the per-connection limit never refuses a request for a name the caller already holds (formerly F4b) --------- *)
+Lemma limit_spares_held_spec v s c name flags ord :
+  queued c (sget (s_names s) (KW name)) = true ->
+  ~ In (c, MError ELimitsExceeded) (snd (spec_step v s (EvRequest c name flags) ord)).
+Proof.
+  intros Hq. unfold spec_step. destruct (sfind (s_conns s) c) as [x|]; [|simpl; intros [H|[]]; discriminate].
+  destruct (negb (sc_active x)); [simpl; intros [H|[]]; discriminate|].
+  destruct (negb (requestable name)); [simpl; intros [H|[]]; discriminate|].
+  rewrite Hq. cbn [negb]. rewrite andb_false_r. cbn [snd]. rewrite sdeliver_app. intros H. apply in_app_iff in H. destruct H as [H|H].
+  - apply (sdeliver_no_reply (s_conns s) _ (signals_not_replies _ _ _)) in H. discriminate.
+  - destruct H as [H|[]]. discriminate.
+Qed.
+
+Theorem limit_spares_held_reachable limit h c name flags :
+  queued c (mget (b_services (fst (run (init_bus limit) h))) (KW name)) = true ->
+  ~ In (c, MError ELimitsExceeded) (snd (step (fst (run (init_bus limit) h)) (EvRequest c name flags))).
+Proof.
+  intros Hq. destruct (reachable_R limit h) as [s Rr]. assert (I := reachable_inv limit h).
+  destruct (step_sim _ s (EvRequest c name flags) I Rr) as [_ Hs].
+  destruct (step (fst (run (init_bus limit) h)) (EvRequest c name flags)) as [b' o].
+  destruct (spec_step as_implemented s (EvRequest c name flags) (advice (fst (run (init_bus limit) h)) (EvRequest c name flags))) as [s' o'] eqn:Es.
+  destruct Hs as [<- _]. cbn [snd]. change o' with (snd (s', o')). rewrite <- Es.
+  apply limit_spares_held_spec. rewrite (R_names _ s Rr). exact Hq.
 Qed.
